@@ -1,7 +1,7 @@
 """All contracts, by name."""
-from . import symbolic_nodes, negation, quantifiers, mappings
+from . import symbolic_nodes, negation, quantifiers, mappings, toplevel
 
-MODULES = [symbolic_nodes, negation, quantifiers, mappings]
+MODULES = [symbolic_nodes, negation, quantifiers, mappings, toplevel]
 
 
 def all_contracts():
